@@ -628,6 +628,23 @@ func (c *c14) works(t time.Time) bool {
 	return wd != time.Saturday && wd != time.Sunday
 }
 
+// rateOf is the stated pay-rate rule for a civil day (lunar date and Qingming from the library's conversion).
+func (c *c14) rateOf(day time.Time) int {
+	lun := calendar.NewSolarFromYmd(day.Year(), int(day.Month()), day.Day()).GetLunar()
+	statutory := (day.Month() == 1 && day.Day() == 1) || (day.Month() == 5 && day.Day() == 1) ||
+		(day.Month() == 10 && day.Day() >= 1 && day.Day() <= 3) ||
+		(lun.GetMonth() == 1 && lun.GetDay() >= 1 && lun.GetDay() <= 3) ||
+		(lun.GetMonth() == 5 && lun.GetDay() == 5) || (lun.GetMonth() == 8 && lun.GetDay() == 15) ||
+		lun.GetJieQi() == "清明"
+	switch {
+	case statutory:
+		return 3
+	case !c.works(day):
+		return 2
+	}
+	return 1
+}
+
 func (c *c14) checkWalks(days []string) {
 	lo, hi := c.years()
 	n := 24
@@ -701,8 +718,15 @@ func (c *c14) checkWalks(days []string) {
 		}
 		c.checks++
 		var got string
+		var landed *calendar.Solar
+		startSolar := calendar.NewSolarFromYmd(start.Year(), int(start.Month()), start.Day())
+		if i%2 == 0 {
+			// ask the start object for its pay rate first: the object reached by stepping must still report its OWN day
+			safe(func() { startSolar.GetSalaryRate() })
+		}
 		if p := safe(func() {
-			got = calendar.NewSolarFromYmd(start.Year(), int(start.Month()), start.Day()).Next(steps, true).ToYmd()
+			landed = startSolar.Next(steps, true)
+			got = landed.ToYmd()
 		}); p != nil {
 			c.fail("WORKDAY_MISMATCH", "workday/panic", map[string]string{"start": start.Format("2006-01-02"), "n": fmt.Sprint(steps), "panic": fmt.Sprint(p)})
 		}
@@ -711,25 +735,25 @@ func (c *c14) checkWalks(days []string) {
 				"expected": exp.Format("2006-01-02") + " (lands on a working day with exactly |n| working days passed)", "got": got})
 		}
 		probesC["workday_steps"]++
+		// pay rate asked of the object that the walk returned (not of a freshly built date)
+		if landed != nil {
+			c.checks++
+			wantL := c.rateOf(exp)
+			if gotL := landed.GetSalaryRate(); gotL != wantL {
+				c.fail("SALARY_MISMATCH", fmt.Sprintf("salary/on_stepped_object_expected_%d_got_%d", wantL, gotL), map[string]string{
+					"day": exp.Format("2006-01-02"), "reached_from": start.Format("2006-01-02"), "n": fmt.Sprint(steps)})
+			}
+			probesC["salary_on_stepped_object"]++
+		}
 		// salary rate on the start day
 		c.checks++
 		sol := calendar.NewSolarFromYmd(start.Year(), int(start.Month()), start.Day())
-		lun := sol.GetLunar()
-		want := 1
-		statutory := (start.Month() == 1 && start.Day() == 1) || (start.Month() == 5 && start.Day() == 1) ||
-			(start.Month() == 10 && start.Day() >= 1 && start.Day() <= 3) ||
-			(lun.GetMonth() == 1 && lun.GetDay() >= 1 && lun.GetDay() <= 3) ||
-			(lun.GetMonth() == 5 && lun.GetDay() == 5) || (lun.GetMonth() == 8 && lun.GetDay() == 15) ||
-			lun.GetJieQi() == "清明"
-		switch {
-		case statutory:
-			want = 3
+		want := c.rateOf(start)
+		if want == 3 {
 			probesC["salary_statutory"]++
-		case !c.works(start):
-			want = 2
 		}
 		if got := sol.GetSalaryRate(); got != want {
-			c.fail("SALARY_MISMATCH", fmt.Sprintf("salary/expected_%d_got_%d", want, got), map[string]string{"day": start.Format("2006-01-02"), "lunar": lun.String()})
+			c.fail("SALARY_MISMATCH", fmt.Sprintf("salary/expected_%d_got_%d", want, got), map[string]string{"day": start.Format("2006-01-02"), "lunar": sol.GetLunar().String()})
 		}
 		probesC["salary_checked"]++
 	}
